@@ -17,7 +17,7 @@ CONSTANTS
   BackoffDraws = {0}
   ProgressSeqs <- MCProg0
   MaxChecks = 2
-  MaxCtl = 1
+  MaxCtl = 0
   CtlSources <- MCSrcBoth
   MaxRebootAsks = 1
   MaxCrashes = 2
